@@ -295,6 +295,21 @@ func workload(p *plan, cl *kgo.Client, seed uint64) (map[tp][]*sent, *sync.Mutex
 							}
 						}
 						s.TSMilli = base + int64(rng.IntN(4000)) - 1000 + int64(i)
+						if rng.IntN(8) == 0 {
+							// backfilled / far-future records: timestamp deltas at the width
+							// boundaries of the varlong that carries them (a record at the Unix
+							// epoch next to a current one is a 41-bit delta)
+							deltas := []int64{1<<31 - 1, 1 << 31, 1<<34 - 1, 1 << 34, 1 << 35, 1 << 40}
+							d := deltas[rng.IntN(len(deltas))]
+							switch rng.IntN(3) {
+							case 0:
+								s.TSMilli = base - d
+							case 1:
+								s.TSMilli = base + d
+							default:
+								s.TSMilli = int64(rng.IntN(2)) // the epoch itself, or 1 ms after
+							}
+						}
 						rec := &kgo.Record{Topic: t, Partition: part, Key: s.Key, Value: s.Value, Headers: s.Headers, Timestamp: time.UnixMilli(s.TSMilli)}
 						mu.Lock()
 						out[tp{t, part}] = append(out[tp{t, part}], s)
